@@ -477,6 +477,7 @@ This process is a two-phase process, during the midst of it the peer group's lea
 
 #![deny(clippy::all)]
 #![deny(missing_docs)]
+#![cfg_attr(tikv_raft_rs_verif, allow(missing_docs, dead_code))]
 #![recursion_limit = "128"]
 // TODO: remove this when we update the mininum rust compatible version.
 #![allow(unused_imports)]
@@ -488,6 +489,18 @@ This process is a two-phase process, during the midst of it the peer group's lea
 // same time. And reassignment can be optimized by compiler.
 #![allow(clippy::field_reassign_with_default)]
 
+#[cfg(tikv_raft_rs_verif)]
+macro_rules! fatal {
+    ($logger:expr, $msg:expr) => {{
+        let _ = &$logger;
+        panic!("{}", $msg)
+    }};
+    ($logger:expr, $fmt:expr, $($arg:tt)+) => {{
+        fatal!($logger, format_args!($fmt, $($arg)+))
+    }};
+}
+
+#[cfg(not(tikv_raft_rs_verif))]
 macro_rules! fatal {
     ($logger:expr, $msg:expr) => {{
         let owned_kv = ($logger).list();
@@ -503,6 +516,20 @@ macro_rules! fatal {
     }};
 }
 
+#[cfg(tikv_raft_rs_verif)]
+pub mod verif_shim;
+#[cfg(tikv_raft_rs_verif)]
+#[allow(missing_docs)]
+pub mod verif_export {
+    pub use crate::confchange::{restore, MapChangeType};
+    pub use crate::quorum::{AckedIndexer, Index, VoteResult};
+    pub use crate::raft::VerifRaftPrivate;
+    pub use crate::raw_node::VerifRawNodeView;
+    pub use crate::read_only::{ReadIndexStatus, ReadOnly};
+    pub use crate::tracker::{Configuration, ProgressMap};
+    pub type HashMap<K, V> = crate::HashMap<K, V>;
+    pub type HashSet<K> = crate::HashSet<K>;
+}
 mod confchange;
 mod config;
 mod errors;
@@ -595,5 +622,11 @@ pub fn default_logger() -> slog::Logger {
 }
 
 type DefaultHashBuilder = std::hash::BuildHasherDefault<fxhash::FxHasher>;
+#[cfg(not(tikv_raft_rs_verif))]
 type HashMap<K, V> = std::collections::HashMap<K, V, DefaultHashBuilder>;
+#[cfg(tikv_raft_rs_verif)]
+type HashMap<K, V> = verif_shim::VMap<K, V, DefaultHashBuilder>;
+#[cfg(not(tikv_raft_rs_verif))]
 type HashSet<K> = std::collections::HashSet<K, DefaultHashBuilder>;
+#[cfg(tikv_raft_rs_verif)]
+type HashSet<K> = verif_shim::VSet<K, DefaultHashBuilder>;
